@@ -180,18 +180,65 @@ def _bind(fn: ast.FunctionDef, call: ast.Call, recv: Optional[ast.expr] = None) 
     return got
 
 
+def _tag(node: ast.AST, module: str) -> None:
+    """nodes copied from another module remember where their positions (and types) belong"""
+    for x in ast.walk(node):
+        if not hasattr(x, "_jv_module"):
+            x._jv_module = module  # type: ignore[attr-defined]
+
+
+def package_helpers(parsed: List[Tuple[str, ast.Module]], ambiguous: Set[str]):
+    """(module-level helpers by (module short name, function name), unique new methods by name) over the whole package"""
+    ref = reference_functions()
+    funcs: Dict[Tuple[str, str], Tuple[ast.FunctionDef, List[ast.stmt]]] = {}
+    meths: Dict[str, Tuple[str, ast.FunctionDef, List[ast.stmt]]] = {}
+    ref_names = {r.split(".")[-1] for r in ref if "." in r.split(":")[-1]}
+    for module, tree in parsed:
+        for st in tree.body:
+            if isinstance(st, ast.FunctionDef) and f"{module}:{st.name}" not in ref:
+                b = _inlinable(st)
+                if b is not None:
+                    funcs[(module, st.name)] = (st, b)
+        for c in ast.walk(tree):
+            if isinstance(c, ast.ClassDef):
+                for st in c.body:
+                    if isinstance(st, ast.FunctionDef) and f"{module}:{c.name}.{st.name}" not in ref and st.name not in ambiguous and not st.name.startswith("__") \
+                            and not st.decorator_list and st.name not in ref_names \
+                            and not any(hasattr(t_, st.name) for t_ in (dict, list, str, bytes, set, tuple, int, float, object, bytearray)):
+                        b = _inlinable(st, method=True)
+                        if b is not None:
+                            meths[st.name] = (module, st, b)
+    return funcs, meths
+
+
 class Inliner:
-    def __init__(self, tree: ast.Module, module: str):
+    def __init__(self, tree: ast.Module, module: str, ambiguous: Optional[Set[str]] = None, pkg_funcs=None, pkg_meths=None, is_package: bool = False):
         self.tree = tree
         self.module = module
         self.counter = 0
         ref = reference_functions()
         self.helpers: Dict[str, Tuple[ast.FunctionDef, List[ast.stmt]]] = {}
+        self.keep: Set[str] = set()  # names some module of the package imports: never dropped
+        self.foreign: Dict[int, str] = {}  # id(FunctionDef) -> module it lives in, for helpers of other modules
         for st in tree.body:
             if isinstance(st, ast.FunctionDef) and f"{module}:{st.name}" not in ref:
                 b = _inlinable(st)
                 if b is not None:
                     self.helpers[st.name] = (st, b)
+        # helpers of other modules of the package, under the name they are imported by (`from .x import helper [as h]`)
+        if pkg_funcs:
+            base = module.split(".") if module else []
+            if not is_package and base:
+                base = base[:-1]
+            for st in tree.body:
+                if isinstance(st, ast.ImportFrom) and st.level >= 1:
+                    b_ = base[: len(base) - (st.level - 1)] if st.level > 1 else list(base)
+                    tgt = ".".join(b_ + (st.module.split(".") if st.module else []))
+                    for a in st.names:
+                        k = (tgt, a.name)
+                        if k in pkg_funcs and (a.asname or a.name) not in self.helpers:
+                            self.helpers[a.asname or a.name] = pkg_funcs[k]
+                            self.foreign[id(pkg_funcs[k][0])] = tgt
         # new methods, callable as self.m(...) / cls.m(...) from methods of the same class when no class of this module overrides them
         self.methods: Dict[Tuple[str, str], Tuple[ast.FunctionDef, List[ast.stmt]]] = {}
         classes = [st for st in ast.walk(tree) if isinstance(st, ast.ClassDef)]
@@ -202,11 +249,23 @@ class Inliner:
                     defined[st.name] = defined.get(st.name, 0) + 1
         for c in classes:
             for st in c.body:
-                if isinstance(st, ast.FunctionDef) and f"{module}:{c.name}.{st.name}" not in ref and defined.get(st.name) == 1 and not st.name.startswith("__"):
+                if isinstance(st, ast.FunctionDef) and f"{module}:{c.name}.{st.name}" not in ref and defined.get(st.name) == 1 and not st.name.startswith("__") \
+                        and st.name not in (ambiguous or set()):
                     b = _inlinable(st, method=True)
                     if b is not None:
                         self.methods[(c.name, st.name)] = (st, b)
         self.cls_stack: List[Tuple[str, Optional[str]]] = []  # (class name, self / cls name of the method being processed)
+        self.unique_methods: Dict[str, Tuple[ast.FunctionDef, List[ast.stmt]]] = {}
+        ref_names = {r.split(".")[-1] for r in ref if "." in r.split(":")[-1]}
+        for (cname_, mname), (fn_, b_) in self.methods.items():
+            if not fn_.decorator_list and mname not in ref_names and not any(hasattr(t_, mname) for t_ in (dict, list, str, bytes, set, tuple, int, float, object, bytearray)):
+                self.unique_methods[mname] = (fn_, b_)
+        if pkg_meths:
+            for mname, (mod_, fn_, b_) in pkg_meths.items():
+                if mname not in self.unique_methods:
+                    self.unique_methods[mname] = (fn_, b_)
+                    if mod_ != module:
+                        self.foreign[id(fn_)] = mod_
         self.inlined: List[str] = []
         self.removed: List[str] = []
 
@@ -224,6 +283,11 @@ class Inliner:
                 if decs == ["staticmethod"]:
                     return fn, body, None
                 return fn, body, f.value
+        # `x.m(...)` on any receiver, when m is a new instance method defined by exactly one class of the whole package and its name is not
+        # an attribute of a builtin container / scalar type (so that the call cannot mean anything else)
+        if isinstance(f, ast.Attribute) and _pure(f.value) and f.attr in self.unique_methods:
+            fn, body = self.unique_methods[f.attr]
+            return fn, body, f.value
         return None
 
     # ------------------------------------------------------------------------------------------- expression mode
@@ -250,7 +314,10 @@ class Inliner:
             uses = [x for x in ast.walk(e) if isinstance(x, ast.Name) and x.id == impure[0]]
             if len(uses) != 1 or not _first_evaluated(e, uses[0]):
                 return None
-        new = _Subst(got, {}).visit(copy.deepcopy(e))
+        ecopy = copy.deepcopy(e)
+        if id(fn) in self.foreign:
+            _tag(ecopy, self.foreign[id(fn)])
+        new = _Subst(got, {}).visit(ecopy)
         self.inlined.append(fn.name)
         return new
 
@@ -313,6 +380,10 @@ class Inliner:
                     out.append(_Subst(mapping, rename).visit(copy.deepcopy(st)))
             return out
 
+        if id(fn) in self.foreign:
+            body = copy.deepcopy(body)
+            for st_ in body:
+                _tag(st_, self.foreign[id(fn)])
         res = conv(body)
         if not _always_leaves(body):
             # falling off the end returns None: returns are in tail position, so the value is supplied at every fall-through tail
@@ -429,7 +500,7 @@ class Inliner:
         return None
 
     def run(self) -> ast.Module:
-        if not self.helpers and not self.methods:
+        if not self.helpers and not self.methods and not self.unique_methods:
             return self.tree
 
         def visit(body: List[ast.stmt], cname: Optional[str]) -> None:
@@ -447,7 +518,7 @@ class Inliner:
         # a private helper whose every call was replaced is dead code now: drop it, so that no rule judges a function nobody calls
         # (Program checks that no other module imports it)
         for name, (fn, _b) in list(self.helpers.items()):
-            if name.startswith("_") and name in self.inlined:
+            if name.startswith("_") and name in self.inlined and id(fn) not in self.foreign and name not in self.keep:
                 refs = [x for x in ast.walk(self.tree) if isinstance(x, ast.Name) and x.id == name] + \
                        [x for x in ast.walk(self.tree) if isinstance(x, ast.Attribute) and x.attr == name]
                 if not refs:
@@ -554,7 +625,9 @@ def _replace_node(st: ast.stmt, fld: str, old: ast.AST, new: ast.AST) -> None:
     setattr(st, fld, R().visit(getattr(st, fld)))
 
 
-def inline_new_helpers(tree: ast.Module, module: str) -> Tuple[ast.Module, List[str]]:
-    inl = Inliner(tree, module)
+def inline_new_helpers(tree: ast.Module, module: str, ambiguous: Optional[Set[str]] = None, pkg_funcs=None, pkg_meths=None,
+                       is_package: bool = False, keep: Optional[Set[str]] = None) -> Tuple[ast.Module, List[str]]:
+    inl = Inliner(tree, module, ambiguous, pkg_funcs, pkg_meths, is_package)
+    inl.keep = set(keep or ())
     t = inl.run()
     return t, sorted(set(inl.inlined)) + ["-" + n for n in inl.removed]
